@@ -4,6 +4,7 @@ import RaftModel.Driver.Quorum
 import RaftModel.Driver.ConfChange
 import RaftModel.Driver.RaftLog
 import RaftModel.Driver.Storage
+import RaftModel.Driver.RawNode
 
 /-
 `rvm` — the model side of the correspondence check.
@@ -21,6 +22,7 @@ structure DState where
   cc : Option Tracker := none
   rl : Option RaftLog := none
   ms : Option MemStorage := none
+  rw : Option RwState := none
   lines : Nat := 0
   tag : String := ""   -- argument of the last `p new` line (the run's seed)
   compared : Nat := 0
@@ -45,6 +47,7 @@ def dispatch (st : DState) (comp : String) (cmd : List String) : DState × Strin
   | "cc" => let (s, o) := handleCc st.cc cmd; ({ st with cc := s }, o)
   | "rl" => let (s, o) := handleRL st.rl cmd; ({ st with rl := s }, o)
   | "ms" => let (s, o) := MS.handleMs st.ms cmd; ({ st with ms := s }, o)
+  | "rw" => let (s, o) := handleRw st.rw cmd; ({ st with rw := s }, o)
   | _ => (st, "bad-op")
 
 /-- after a disagreement the component's sequence is abandoned until its next `new` -/
@@ -55,6 +58,7 @@ def abandon (st : DState) (comp : String) : DState :=
   | "cc" => { st with cc := none }
   | "rl" => { st with rl := none }
   | "ms" => { st with ms := none }
+  | "rw" => { st with rw := none }
   | _ => st
 
 def stepLine (st : DState) (line : String) : DState × Option String :=
